@@ -70,6 +70,10 @@ type mstate struct {
 	GapKind string // the block that halted the store
 	Refused uint64 // its number
 	Reorged bool   // some reorg has removed stored blocks before (sticky)
+	// Recovered: the store was halted before and a reorg un-halted it (sticky). The reference behaves the same afterwards,
+	// but the node is a long-lived object that has been through a halt: merging it with a node that never halted would
+	// assume what the property is about (a second halt must work like the first).
+	Recovered bool
 }
 
 func (s mstate) tip() uint64 { return uint64(len(s.Kinds)) }
@@ -81,7 +85,7 @@ func (s mstate) leaves() int {
 	return n
 }
 func (s mstate) key() string {
-	return fmt.Sprintf("%s|halted=%v:%s@%d|reorged=%v", strings.Join(s.Kinds, ","), s.Halted, s.GapKind, s.Refused, s.Reorged)
+	return fmt.Sprintf("%s|halted=%v:%s@%d|reorged=%v|recovered=%v", strings.Join(s.Kinds, ","), s.Halted, s.GapKind, s.Refused, s.Reorged, s.Recovered)
 }
 
 func enabled(store sk.Kind, tier string, s mstate) []string {
@@ -178,6 +182,7 @@ func apply(s mstate, e event) (t mstate, removed int) {
 			t.Reorged = true
 			if s.Halted {
 				t.Halted, t.GapKind, t.Refused = false, "", 0
+				t.Recovered = true
 			}
 		}
 	}
